@@ -3,9 +3,11 @@ from props import progs
 from props.progs import replay  # noqa
 
 GEN = 'expr'
-RULE = ("one-statement programs 输出‹expr› after a 令/输入 prelude; type-directed expression trees of depth 1–6 over + − * / | %, "
+RULE = ("one-statement programs 输出‹expr› after a 令/输入 prelude (one in five evaluates the expression two or three times in a loop "
+        "body and yields the list of results: the same expression evaluated again yields its documented value again); type-directed expression trees of depth 1–6 over + − * / | %, "
         "the ten comparison spellings, 为/不为, 且/或, braces; operands from a boundary pool (±0, fractions, 2^53+1, 5E-324, 1E+308, "
-        "±inf via 1*10^999, NaN/inf inputs, texts, bools, 空, lists, dictionaries incl. equal-keys-different-values pairs); planted "
+        "±inf via 1*10^999, NaN/inf inputs, texts, bools, 空, lists, dictionaries incl. equal-keys-different-values pairs; number literals "
+        "changed in place where they stand: receiver of 自增/自减, argument of a callee that bumps its input, item of a list/dictionary literal); planted "
         "display calls in operands (order, short-circuit); 0–15 % deliberately ill-typed operands. Non-trivial = at least two operators "
         "in the source. The generator's intended tree (minimal braces ⇒ precedence/associativity) is compared with the real parser's tree.")
 ASSUMPTIONS = ["IEEE-754 arithmetic, floor, comparisons of float64: Go runtime vs Lean Float, compared bit-for-bit per case, not proved",
@@ -18,4 +20,9 @@ def run(ctx):
     n = ctx.n(2500, 60000)
     ps = [g.expr_program(ctx.rng.choice([1, 2, 3, 3, 4, 5, 6])) for _ in range(n)]
     ops = '+-*/|%且或为于<>='
-    progs.run_stream(ctx, 'expr', ps, nontrivial=lambda src, go: sum(src.split('输出')[-1].count(c) for c in ops) >= 2)
+
+    def expr_text(src):
+        if '以果（后增：' in src:
+            return src.split('以果（后增：')[-1].rsplit('输出', 1)[0]
+        return src.split('输出')[-1]
+    progs.run_stream(ctx, 'expr', ps, nontrivial=lambda src, go: sum(expr_text(src).count(c) for c in ops) >= 2)
